@@ -69,8 +69,11 @@ def run(tier):
     conds = conds_for(RAISING_PROGS, tier)
     for c in conds[2:]:
         c.twin = None
-    run.run_conditions(conds, conformance_harnesses=["h_constraints.py"])
-    run.encoded += ENCODED
+    # (c) two computed repetitions over the same item whose printed forms coincide: both bounds are enforced by the real Evaluator
+    from engine.driver import Cond
+    conds.append(Cond("h_tworeps.py", "both_bounds_enforced", 600, twin="reach"))
+    run.run_conditions(conds, conformance_harnesses=["h_constraints.py", "h_tworeps.py"])
+    run.encoded += ENCODED + ["Evaluator.__init__ + evaluate_individual + RepetitionBoundsConstraint.fitness on a spec with two computed repetitions over the same item (h_tworeps.py)"]
     run.extra["source_sha256_16"] = source_fingerprint(FILES + ["fandango/constraints/fitness.py"])
     run.bounds = {"threshold query": f"shapes (h, r) in {shapes}; per-constraint totals <= 1000 via lemma L1; soft constraints 0",
                   "exception path": f"programs {RAISING_PROGS} of the C07 family on trees with 1-2 records over leaf alphabet {{0,5,a}}"}
